@@ -19,6 +19,7 @@ RULE = ('Generated round trips: k in 1..32 (index widths u1..u8, values up to 4^
         'of another kind (random groups/datasets/attributes; signature-shaped files lacking only the marker; marker on a sub-group) must '
         'raise SignaturesFileError; files starting with the HDF5 magic but corrupt must raise some exception. Non-trivial: round trip '
         'with >= 2 signatures of different lengths, or a foreign file that is not empty; distinct by case hash.')
+RULE += ' Further: payload composition (nested annotated wrappers, collection loaded from another file), numeric-looking and non-NFC string IDs.'
 ASSUMPTIONS = ['ID and metadata strings contain no NUL and no lone surrogates (HDF5 variable-length strings cannot hold them; h5py raises)',
                'JSON extra contains no NaN/Infinity']
 DEADLINE_S = {'quick': 240, 'thorough': 2400}
